@@ -4,7 +4,7 @@
     world                                              → ok      (forget all modules, libs, state)
     mod <name> <syntaxOk 0|1> <imports> <classes> <vars> <extra> [<keys the renderer always needs>]   → ok   (a module on disk)
         imports  m:n,m:n | -          (n may be empty: bare dependency edge)
-        classes  C/f,g>m>B>g,h!;D | - (method `g` calls B.g of module m, method `h` uses an undefined name)
+        classes  C/f,g>m>B>g,h!,k~;D | - (method `g` calls B.g of module m, `h` uses an undefined name, `k` holds a capturing lambda)
         vars     v:1,u:0 | -          (0 = annotation does not resolve)
     libs a,b | main m | fuel n                         → ok
     std <keys a method needs> <keys an annotated variable needs>   → ok  (applies to the modules defined afterwards)
@@ -32,6 +32,7 @@ def parseImports (s : String) : List (ModPath × Str) :=
 
 def parseMethod (s : String) : Method :=
   if s.endsWith "!" then { name := s2l (s.dropEnd 1).toString, badName := true }
+  else if s.endsWith "~" then { name := s2l (s.dropEnd 1).toString, lam := true }
   else match s.splitOn ">" with
     | [f, m, b, g] => { name := s2l f, call := some (s2l m, s2l b, s2l g) }
     | _ => { name := s2l s }
